@@ -584,6 +584,16 @@ fn init_buf(n: usize) -> Vec<u8> {
     (0..n).map(|i| ((i * 7 + 3) & 255) as u8).collect()
 }
 const CANARY: usize = 16;
+/// CANARY bytes 0xA5, the n slice bytes of init_buf, CANARY bytes 0xA5
+fn framed_buf(n: usize) -> Vec<u8> {
+    let mut big: Vec<u8> = std::iter::repeat(0xA5u8).take(CANARY).collect();
+    big.extend(init_buf(n));
+    big.extend(std::iter::repeat(0xA5u8).take(CANARY));
+    big
+}
+fn canaries_ok(big: &[u8], n: usize) -> bool {
+    big.len() == n + 2 * CANARY && big[..CANARY].iter().all(|&x| x == 0xA5) && big[CANARY + n..].iter().all(|&x| x == 0xA5)
+}
 
 fn nums(v: &[usize]) -> String {
     v.iter().map(|x| x.to_string()).collect::<Vec<_>>().join(",")
@@ -766,13 +776,14 @@ fn run(line: &str) -> String {
         }
         "ws" => {
             let n: usize = a[2].parse().unwrap();
-            let mut big = init_buf(n);
-            big.extend(std::iter::repeat(0xA5u8).take(CANARY));
-            let base = big.as_ptr() as usize;
+            // the slice is the window [CANARY, CANARY+n) of a larger buffer (C16_slice_frame):
+            // canary bytes in front of it and behind it
+            let mut big = framed_buf(n);
+            let base = big.as_ptr() as usize + CANARY;
             let (res, extra) = {
                 let r = match make(a[1], a[3]) {
-                    Val::Eth(h) => h.write_to_slice(&mut big[..n]).map(|rest| (rest.as_ptr() as usize - base, rest.len())),
-                    Val::Sll(h) => h.write_to_slice(&mut big[..n]).map(|rest| (rest.as_ptr() as usize - base, rest.len())),
+                    Val::Eth(h) => h.write_to_slice(&mut big[CANARY..CANARY + n]).map(|rest| (rest.as_ptr() as usize - base, rest.len())),
+                    Val::Sll(h) => h.write_to_slice(&mut big[CANARY..CANARY + n]).map(|rest| (rest.as_ptr() as usize - base, rest.len())),
                     _ => panic!("ws entry"),
                 };
                 match r {
@@ -783,8 +794,8 @@ fn run(line: &str) -> String {
                     ),
                 }
             };
-            let canary = big[n..].iter().all(|&x| x == 0xA5);
-            format!("{} buf={} # canary={}{}", res, hex(&big[..n]), if canary { "ok" } else { "BAD" }, extra)
+            let canary = canaries_ok(&big, n);
+            format!("{} buf={} # canary={}{}", res, hex(&big[CANARY..CANARY + n]), if canary { "ok" } else { "BAD" }, extra)
         }
         "wsb" => {
             let n: usize = a[1].parse().unwrap();
@@ -793,9 +804,8 @@ fn run(line: &str) -> String {
                 BRes::Size(s) => s,
                 _ => unreachable!(),
             };
-            let mut big = init_buf(n);
-            big.extend(std::iter::repeat(0xA5u8).take(CANARY));
-            let r = match run_bld(&b, Out::Slice(&mut big[..n])) {
+            let mut big = framed_buf(n);
+            let r = match run_bld(&b, Out::Slice(&mut big[CANARY..CANARY + n])) {
                 BRes::Slice(r) => r,
                 _ => unreachable!(),
             };
@@ -809,8 +819,8 @@ fn run(line: &str) -> String {
                 Err(Icmpv6InIpv4) => bld_content("i6in4"),
                 Err(ArpHeaderNotMatch) => bld_content("arp"),
             };
-            let canary = big[n..].iter().all(|&x| x == 0xA5);
-            format!("{} buf={} # canary={} size={}", res, hex(&big[..n]), if canary { "ok" } else { "BAD" }, size)
+            let canary = canaries_ok(&big, n);
+            format!("{} buf={} # canary={} size={}", res, hex(&big[CANARY..CANARY + n]), if canary { "ok" } else { "BAD" }, size)
         }
         "r" => {
             let k: usize = a[2].parse().unwrap();
